@@ -6,6 +6,7 @@ import (
 	"go/constant"
 	"go/token"
 	"go/types"
+	"sort"
 	"strings"
 
 	"golang.org/x/tools/go/ssa"
@@ -38,6 +39,7 @@ func returnValue(ret *ssa.Return, i int) ssa.Value {
 
 type filterSyms struct {
 	masks  *ssa.Global
+	maskFn *ssa.Function // when there is no table: the function computing the mask from the prefix length (may be nil: inline)
 	ipList *types.Var
 	ipMaps *types.Var
 	index  *types.Var
@@ -95,6 +97,17 @@ func (s *filterSyms) maskKey(v ssa.Value) (x, e ssa.Value, ok bool) {
 		return nil, nil, false
 	}
 	for _, pair := range [][2]ssa.Value{{b.X, b.Y}, {b.Y, b.X}} {
+		if s.masks == nil {
+			// no table: the mask is computed from the prefix length (`^uint32(0) << (32 - n)`, inline or through the
+			// package's one mask function); the "index" is then the prefix length itself (maskOff == 1)
+			if c, isC := pair[1].(*ssa.Call); isC && s.maskFn != nil && sx.StaticCallee(c) == s.maskFn && len(c.Call.Args) == 1 {
+				return pair[0], c.Call.Args[0], true
+			}
+			if n, isS := shiftMask(pair[1]); isS {
+				return pair[0], n, true
+			}
+			continue
+		}
 		if ld, isL := pair[1].(*ssa.UnOp); isL && ld.Op == token.MUL {
 			if ia, isI := ld.X.(*ssa.IndexAddr); isI && ia.X == ssa.Value(s.masks) {
 				return pair[0], ia.Index, true
@@ -108,6 +121,56 @@ func (s *filterSyms) maskKey(v ssa.Value) (x, e ssa.Value, ok bool) {
 		}
 	}
 	return nil, nil, false
+}
+
+// shiftMask: v is `0xFFFFFFFF << (32 - n)` computed in uint32 (the /n netmask for 0 <= n <= 32: Go defines a shift by
+// the full width as 0): returns n.
+func shiftMask(v ssa.Value) (ssa.Value, bool) {
+	b, ok := v.(*ssa.BinOp)
+	if !ok || b.Op != token.SHL {
+		return nil, false
+	}
+	if bt, isB := b.Type().Underlying().(*types.Basic); !isB || bt.Kind() != types.Uint32 {
+		return nil, false
+	}
+	c, isC := b.X.(*ssa.Const)
+	if !isC || c.Value == nil {
+		return nil, false
+	}
+	if u, exact := constant.Uint64Val(constant.ToInt(c.Value)); !exact || u != 0xFFFFFFFF {
+		return nil, false
+	}
+	sub, isSub := stripConv(b.Y).(*ssa.BinOp)
+	if !isSub || sub.Op != token.SUB {
+		return nil, false
+	}
+	if k, isK := sx.ConstInt(sub.X); !isK || k != 32 {
+		return nil, false
+	}
+	return sub.Y, true
+}
+
+// findMaskFn: the package function `func(n <integer>) uint32 { return ^uint32(0) << (32 - n) }`.
+func findMaskFn(sp *ssa.Package) *ssa.Function {
+	var names []string
+	for n := range sp.Members {
+		names = append(names, n)
+	}
+	sort.Strings(names)
+	for _, n := range names {
+		fn, ok := sp.Members[n].(*ssa.Function)
+		if !ok || fn.Blocks == nil || len(fn.Params) != 1 || fn.Signature.Results().Len() != 1 || len(fn.Blocks) != 1 {
+			continue
+		}
+		ret, isR := fn.Blocks[0].Instrs[len(fn.Blocks[0].Instrs)-1].(*ssa.Return)
+		if !isR || len(ret.Results) != 1 {
+			continue
+		}
+		if l, isS := shiftMask(ret.Results[0]); isS && stripConv(l) == ssa.Value(fn.Params[0]) {
+			return fn
+		}
+	}
+	return nil
 }
 
 // isListBase: v addresses the list array itself or a slice of it.
@@ -330,10 +393,32 @@ func runC11(p *core.Prog, r *core.Report) {
 		}
 	}
 	if tableName == "" {
-		r.Fail("C11-R1", "mask table", "-", "no package-level [..]uint32 table found in util/netutil")
-		return
+		// no table: the masks are computed. Every `addr & <mask>` of the package must then be of the one recognised form
+		// (R2 finds the keys through it); the form itself is the /n netmask for every 0 <= n <= 32 by construction
+		syms.maskOff = 1
+		syms.maskFn = findMaskFn(sp)
+		nShift := 0
+		for _, fn := range fi.AllFuncs {
+			sx.Instrs(fn, func(in ssa.Instruction) {
+				if b, ok := in.(*ssa.BinOp); ok && b.Op == token.AND {
+					if _, _, isK := syms.maskKey(b); isK {
+						nShift++
+					}
+				}
+			})
+		}
+		if nShift == 0 {
+			r.Fail("C11-R1", "mask table", "-", "no package-level [..]uint32 table found in util/netutil, and no address is masked with `^uint32(0) << (32 - n)` either")
+			return
+		}
+		what := "inline"
+		if syms.maskFn != nil {
+			what = "netutil." + syms.maskFn.Name()
+		}
+		r.OK("C11-R1", "computed netmask ("+what+")", "-", fmt.Sprintf("%d keys are masked with `0xFFFFFFFF << (32 - n)` in uint32: the /n netmask for every 0 <= n <= 32", nShift))
+	} else {
+		syms.masks, _ = sp.Members[tableName].(*ssa.Global)
 	}
-	syms.masks, _ = sp.Members[tableName].(*ssa.Global)
 	for _, g := range fi.Guarded {
 		switch t := g.Type().Underlying().(type) {
 		case *types.Array:
@@ -350,7 +435,7 @@ func runC11(p *core.Prog, r *core.Report) {
 			}
 		}
 	}
-	if syms.masks == nil || syms.ipList == nil || syms.ipMaps == nil || syms.index == nil || syms.mode == nil {
+	if (syms.masks == nil && tableName != "") || syms.ipList == nil || syms.ipMaps == nil || syms.index == nil || syms.mode == nil {
 		r.Fail("C11-R2", "anchors", "-", "cannot identify list / maps / index / mode fields of IPv4Filter by type")
 		return
 	}
